@@ -9,6 +9,7 @@ import TetlProofs.C06.Fold
 import TetlProofs.C06.Reverse
 import TetlProofs.C06.Bound
 import TetlProofs.C06.TwoRange
+import TetlProofs.C06.Fill
 namespace Tetl.C06.Props
 open Tetl Tetl.C06
 variable {α : Type}
@@ -353,5 +354,97 @@ theorem minmax2_eq (lt : α → α → Bool) (x y : α) : minmax2 lt x y = (Spec
   unfold minmax2 Spec.min2 Spec.max2
   split <;> rfl
 theorem clamp_eq (lt : α → α → Bool) (v lo hi : α) : clamp lt v lo hi = Spec.clamp lt v lo hi := rfl
+
+/-! ## remove_if / remove (the tail behind the returned iterator is unspecified: `Z`) -/
+
+theorem removeIf_eq (p : α → Bool) (P R S : List α) :
+    ∃ Z, removeIf p (P ++ R ++ S) P.length (P.length + R.length)
+          = .ok (P ++ (Spec.remove p R ++ Z) ++ S, P.length + (Spec.remove p R).length)
+        ∧ (Spec.remove p R ++ Z).length = R.length :=
+  removeIf_spec p P R S
+
+theorem remove_eq (eq : α → α → Bool) (v : α) (P R S : List α) :
+    ∃ Z, remove eq v (P ++ R ++ S) P.length (P.length + R.length)
+          = .ok (P ++ (Spec.remove (fun x => eq x v) R ++ Z) ++ S, P.length + (Spec.remove (fun x => eq x v) R).length)
+        ∧ (Spec.remove (fun x => eq x v) R ++ Z).length = R.length :=
+  removeIf_spec (fun x => eq x v) P R S
+
+/-! ## fill / fill_n / generate / generate_n / iota / replace_if / replace / swap_ranges -/
+
+theorem fill_eq (v : α) (P R S : List α) :
+    fill (P ++ R ++ S) P.length (P.length + R.length) v = .ok (P ++ List.replicate R.length v ++ S) := by
+  have := fillLoop_spec v P S P.length (P.length + R.length) (Nat.le_refl _) R [] (by simp)
+  simp only [List.append_nil, List.length_nil, Nat.add_zero] at this
+  unfold fill
+  rw [Nat.add_sub_cancel_left, this]
+  rfl
+
+/-- precondition of fill_n / generate_n: the output range has room for `n` elements -/
+theorem fillN_eq (v : α) (P R S : List α) (n : Int) (hn : n.toNat ≤ R.length) :
+    fillN (P ++ R ++ S) P.length (P.length + R.length) n v
+      = .ok (P ++ (List.replicate n.toNat v ++ R.drop n.toNat) ++ S, P.length + n.toNat) := by
+  have := fillLoop_spec v P (R.drop n.toNat ++ S) P.length (P.length + R.length) (Nat.le_refl _) (R.take n.toNat) []
+    (by simp; omega)
+  have hl : (R.take n.toNat).length = n.toNat := by simp; omega
+  have e : P ++ [] ++ R.take n.toNat ++ (R.drop n.toNat ++ S) = P ++ R ++ S := by
+    simp [← List.append_assoc (R.take n.toNat)]
+  rw [e, hl] at this
+  simp only [List.length_nil, Nat.add_zero] at this
+  unfold fillN
+  rw [this]
+  simp [List.append_assoc]
+example : (2 : Int).toNat ≤ [1, 2, 3].length := by decide
+
+theorem generate_eq (g : Nat → α) (P R S : List α) :
+    generate (P ++ R ++ S) P.length (P.length + R.length) g = .ok (P ++ (List.range R.length).map g ++ S) := by
+  have := genLoop_spec g P S P.length (P.length + R.length) (Nat.le_refl _) R [] 0 (by simp)
+  simp only [List.append_nil, List.length_nil, Nat.add_zero] at this
+  unfold generate
+  rw [Nat.add_sub_cancel_left, this]
+  simp [List.range_eq_range']
+
+theorem generateN_eq (g : Nat → α) (P R S : List α) (n : Int) (hn : n.toNat ≤ R.length) :
+    generateN (P ++ R ++ S) P.length (P.length + R.length) n g
+      = .ok (P ++ ((List.range n.toNat).map g ++ R.drop n.toNat) ++ S, P.length + n.toNat) := by
+  have := genLoop_spec g P (R.drop n.toNat ++ S) P.length (P.length + R.length) (Nat.le_refl _) (R.take n.toNat) [] 0
+    (by simp; omega)
+  have hl : (R.take n.toNat).length = n.toNat := by simp; omega
+  have e : P ++ [] ++ R.take n.toNat ++ (R.drop n.toNat ++ S) = P ++ R ++ S := by
+    simp [← List.append_assoc (R.take n.toNat)]
+  rw [e, hl] at this
+  simp only [List.length_nil, Nat.add_zero] at this
+  unfold generateN
+  rw [this]
+  simp [List.append_assoc, List.range_eq_range']
+example : (2 : Int).toNat ≤ [1, 2, 3].length := by decide
+
+theorem iota_eq (P R S : List Int) (v : Int) :
+    iota (P ++ R ++ S) P.length (P.length + R.length) v = .ok (P ++ Spec.iota R.length v ++ S) := by
+  have := genLoop_spec (fun k => v + (k : Int)) P S P.length (P.length + R.length) (Nat.le_refl _) R [] 0 (by simp)
+  simp only [List.append_nil, List.length_nil, Nat.add_zero] at this
+  unfold iota
+  rw [Nat.add_sub_cancel_left, this]
+  simp [Spec.iota, List.range_eq_range']
+
+theorem replaceIf_eq (p : α → Bool) (w : α) (P R S : List α) :
+    replaceIf p w (P ++ R ++ S) P.length (P.length + R.length) = .ok (P ++ Spec.replace p w R ++ S) := by
+  have := replaceIfLoop_spec p w P S P.length (P.length + R.length) (Nat.le_refl _) R [] (by simp)
+  simp only [List.append_nil, List.length_nil, Nat.add_zero] at this
+  unfold replaceIf
+  rw [Nat.add_sub_cancel_left, this]
+
+theorem replace_eq (eq : α → α → Bool) (v w : α) (P R S : List α) :
+    replace eq v w (P ++ R ++ S) P.length (P.length + R.length)
+      = .ok (P ++ Spec.replace (fun x => eq x v) w R ++ S) :=
+  replaceIf_eq _ w P R S
+
+/-- swap_ranges: the second range `T` (in `Q ++ T ++ U`) has the same length (precondition: room for `last - first`) -/
+theorem swapRanges_eq (P R S Q T U : List α) (h : R.length = T.length) :
+    swapRanges (P ++ R ++ S) P.length (P.length + R.length) (Q ++ T ++ U) Q.length (Q.length + T.length)
+      = .ok (P ++ T ++ S, Q ++ R ++ U, Q.length + R.length) := by
+  unfold swapRanges
+  rw [Nat.add_sub_cancel_left]
+  exact swapRangesLoop_spec S U _ _ _ _ R T P Q h (Nat.le_refl _) (Nat.le_refl _) (Nat.le_refl _) (Nat.le_refl _)
+example : [1, 2].length = [3, 4].length := by decide
 
 end Tetl.C06.Props
